@@ -378,6 +378,7 @@ fn run(seed: u64, keep_log: bool) -> (BCfg, Vec<BCmd>, Bw, Option<Violation>) {
         _ => (0..r.range(0, 4)).map(|_| r.range(2, 20) as usize).collect(),
     };
     let cfg = BCfg { self_id_len: self_len, member_id_lens, ipv6, high_entropy: r.chance(0.5), grace_ms: 10_000, dead_grace_ms: *r.pick(&[20_000u64, 100_000_000]) };
+    crate::abort::tee_cfg("E3-budget", "budget", &serde_json::to_value(&cfg).unwrap());
     let mut w = Bw::new(&cfg, keep_log);
     let mut cmds: Vec<BCmd> = Vec::new();
     let mut violation = None;
@@ -385,6 +386,7 @@ fn run(seed: u64, keep_log: bool) -> (BCfg, Vec<BCmd>, Bw, Option<Violation>) {
     macro_rules! go {
         ($c:expr) => {{
             let c = $c;
+            crate::abort::tee_cmd(&c);
             let res = w.apply(&c);
             cmds.push(c);
             if let Err(v) = res {
